@@ -90,9 +90,13 @@ def _additive_apply(fn, operands, sym_pos):
         J = np.asarray(jax.vmap(f1)(eye)) - out0[None]
         of = o.reshape(-1)
         for k in range(m):
-            nz = np.nonzero(J[k])
-            for idx in zip(*nz):
-                c = float(J[k][idx])
+            Jk = J[k]
+            if Jk.ndim == 0:
+                idxs = [()] if Jk != 0 else []
+            else:
+                idxs = list(zip(*np.nonzero(Jk)))
+            for idx in idxs:
+                c = float(Jk[idx])
                 term = of[k] if c == 1.0 else sym.mul(lift(c), of[k])
                 result[idx] = sym.add(result[idx], term)
     return result
